@@ -235,6 +235,10 @@ type Field struct {
 	// field type. If the field is coming from a pointer to a struct,
 	// there will be a second element providing a pointer to the field.
 	Out []types.Type
+
+	// call is the position of the wire.FieldsOf call that listed this field.
+	// Fields listed by the same call form one item of the provider set.
+	call token.Pos
 }
 
 // Load finds all the provider sets in the packages that match the given
@@ -1055,6 +1059,7 @@ func processFieldsOf(fset *token.FileSet, info *types.Info, call *ast.CallExpr) 
 			Pkg:    v.Pkg(),
 			Pos:    v.Pos(),
 			Out:    out,
+			call:   call.Pos(),
 		})
 	}
 	return fields, nil
